@@ -130,12 +130,25 @@ func censusFile(fset *token.FileSet, rel string, f *ast.File) []blockOp {
 	return ops
 }
 
+// verifOnly: files compiled only with the verification build tag (the hooks) are not part of the engine
+func verifOnly(path string) bool {
+	b, err := os.ReadFile(path)
+	if err != nil {
+		return false
+	}
+	head := string(b)
+	if len(head) > 400 {
+		head = head[:400]
+	}
+	return strings.Contains(head, "//go:build verif")
+}
+
 func censusAll(c *factsCtx) []blockOp {
 	var files []string
 	for _, pat := range []string{"*.go", "pkg/tracing/*.go"} {
 		m, _ := filepath.Glob(filepath.Join(c.repo, pat))
 		for _, p := range m {
-			if strings.HasSuffix(p, "_test.go") || strings.HasSuffix(p, "verif_export.go") {
+			if strings.HasSuffix(p, "_test.go") || verifOnly(p) {
 				continue
 			}
 			rel, _ := filepath.Rel(c.repo, p)
